@@ -2,6 +2,7 @@ import TemprenModel.Model.Prompt
 import TemprenModel.Lemmas.FSLemmas
 import TemprenModel.Lemmas.PipelineLemmas
 import TemprenModel.Lemmas.RegistryLemmas
+import TemprenModel.Props.C02
 /-!
 # C03 — Each conflict strategy does what its flag documents
 
@@ -162,6 +163,29 @@ theorem override_replaces (fs fs' : FS) (a b : APath) (ea eb : Entry) (hn : path
             rw [rekey_id, this]
           · rw [rekey_of_not_prefix hpre] at hp
             exact absurd hp hepath
+
+/-- **stop only on a real conflict** (name mode, link-free trees): if the run under `--conflict-stop` ends
+    with the conflict status, the plan was not free — two files with one destination, a destination that
+    already existed, or a source given twice -/
+theorem stop_only_on_real_conflict (base : FS) (hw : WF base) (hl : LinkFree base) (files : List FileRec)
+    (gen : Nat → Gen) (answers : List Answer) (hnocustom : ∀ q, Answer.custom q ∉ answers)
+    (h : (execute realNameRenamer { fs := base } files gen .stop answers).2 = .destExists) :
+    ¬ C02.FreePlan base files gen := by
+  intro hfree
+  have := (C02.free_plan_succeeds_name_mode base hw hl files gen .stop answers hfree hnocustom).1
+  rw [this] at h
+  exact absurd h (by decide)
+
+/-- **ignore renames everything that is free** (name mode, link-free trees): under a free plan the run
+    under `--conflict-ignore` ends successfully and has renamed every file whose generated name differs -/
+theorem ignore_renames_all_free (base : FS) (hw : WF base) (hl : LinkFree base) (files : List FileRec)
+    (gen : Nat → Gen) (answers : List Answer) (hnocustom : ∀ q, Answer.custom q ∉ answers)
+    (hfree : C02.FreePlan base files gen) :
+    (execute realNameRenamer { fs := base } files gen .ignore answers).2.exitStatus = 0 ∧
+    (execute realNameRenamer { fs := base } files gen .ignore answers).1.events.map C02.moveOf = C02.planned gen 0 files := by
+  obtain ⟨h1, h2, _⟩ := C02.free_plan_succeeds_name_mode base hw hl files gen .ignore answers hfree hnocustom
+  rw [h1]
+  exact ⟨by decide, h2⟩
 
 end C03
 end Tempren
